@@ -384,3 +384,40 @@ def sym_struct(rel, name, tag, overrides=None):
         else:
             vals[f] = opq(f"{tag}.{f}", ty)
     return mk_struct(rel, name, vals), vals
+
+
+def prove_each(run, ob, ex, hyps, claims, names=None, replay=None, prefer=None, timeout_ms=60000):
+    """Like prove() for a conjunction of claims, but one query per conjunct (large conjunctions of
+    easy facts can defeat the solver's heuristics). Vacuity twin on the hypotheses once."""
+    names = names or {}
+    hyps = list(hyps)
+    r0, _m, dt0, _ = solve(ex, hyps)
+    ob.solver_s += dt0
+    ob.queries += 1
+    ob.reach = str(r0)
+    if r0 != z3.sat:
+        return ob.inconclusive(f"vacuous: hypotheses are {r0}")
+    for i, cl in enumerate(claims):
+        r, m, dt, s = solve(ex, hyps + [z3.Not(cl)], timeout_ms)
+        ob.solver_s += dt
+        ob.queries += 1
+        if r == z3.unsat:
+            continue
+        if r != z3.sat:
+            return ob.inconclusive(f"solver answered {r} on conjunct {i} ({s.reason_unknown()})")
+        if prefer:
+            for extra in prefer:
+                r2, m2, dt2, _s2 = solve(ex, hyps + [z3.Not(cl)] + list(extra), 20000)
+                ob.solver_s += dt2
+                ob.queries += 1
+                if r2 == z3.sat:
+                    m = m2
+                    break
+        w = model_dict(m, names)
+        if replay is None:
+            return ob.inconclusive(f"sat (conjunct {i}), model {w}, but no replay available")
+        rep = replay(w)
+        if rep and rep.get("reproduced"):
+            return ob.violated(rep.get("role", "model"), w, rep, rep.get("detail", ""))
+        return ob.inconclusive(f"sat (conjunct {i}) with model {w} but native replay did not reproduce: {(rep or {}).get('detail', '')}")
+    return ob.discharged(f"{len(claims)} conjuncts unsat in {ob.solver_s:.3f}s")
